@@ -11,7 +11,8 @@ def run(tier, seed):
     run_bounded(rep, "C07", [("calls", {"calls_focus": True, "max_funcs": 3}, "calls", 1400 if q else 20000),
                              ("general", {}, "calls", 500 if q else 10000),
                              ("chain", {"calls_focus": True, "chain": True, "max_funcs": 4}, "calls", 400 if q else 8000),
-                             ("nested", {"calls_focus": True, "nested_defs": True, "max_funcs": 2}, "calls", 400 if q else 8000)],
+                             ("nested", {"calls_focus": True, "nested_defs": True, "max_funcs": 2}, "calls", 400 if q else 8000),
+                             ("terminating", {"terminating": True, "named_consts": True, "max_funcs": 2}, "inline-only", 500 if q else 10000)],
                 budget_s=80 if q else 1500, seed=seed)
     rep.trust("spec/ic10_machine.py (region map: the lines from a function label to the next function label)")
     rep.assume("obligation (a) 'the end of the main code is never reached by falling into a function region' is a recorded known finding (every terminating main falls through; pinned by .ref files): "
